@@ -63,6 +63,7 @@ func hashHeader(hd http.Header) uint64 {
 const c13ReadMax = 2 << 20
 
 type c13State struct {
+	dumped   int32
 	run      *ev.Run
 	srv      *svc.Server
 	clients  []*c13Client
@@ -331,6 +332,9 @@ func (s *c13State) oneCall(r *rand.Rand, id uint64, procs int) {
 	run.Eval(fmt.Sprintf("%s|%s|%s|%s|procs=%d", c.name, kind, sizeClass(size), outcome, procs))
 	key := fmt.Sprintf("c13/call/%s/%s/%s/%s", c.name, kind, sizeClass(size), outcome)
 	if !ok {
+		if p := os.Getenv("VERIF_OUT"); p != "" && atomic.CompareAndSwapInt32(&s.dumped, 0, 1) {
+			_ = os.WriteFile(p+"/logs/C13.callhang.txt", []byte(dump), 0o644)
+		}
 		run.Violation(key+"/hang", "call did not return within 120 s under concurrency", trunc(dump, 30000))
 		return
 	}
